@@ -42,8 +42,7 @@ Inductive kind := KObj | KCallable.     (* a Referenceable | a bound method / fu
 Record objinfo := { o_kind : kind;
                     o_attrs : list string;              (* every attribute name getattr() would find *)
                     o_iface : option (list string) }.   (* method names of its RemoteInterface, if it has one *)
-Record world := { w_obj : Z -> objinfo;
-                  w_handler : string -> option Z }.     (* the Tub's name lookup handlers, composed *)
+Record world := { w_obj : Z -> objinfo }.
 
 (* ---------- state *)
 Record conn := { c_alive : bool;
@@ -52,26 +51,27 @@ Record conn := { c_alive : bool;
 Record state := { s_n2r : list (string * Z);            (* Tub.nameToReference *)
                   s_r2n : list (Z * string);            (* Tub.referenceToName *)
                   s_copy : list (string * Z);           (* copyable.CopyableRegistry: type name -> class *)
+                  s_h : list (string * Z);              (* what the application's name lookup handler currently serves *)
                   s_a : conn; s_b : conn }.
 Inductive cid := CA | CB.
 
 Definition get_conn (st : state) (c : cid) : conn := match c with CA => s_a st | CB => s_b st end.
 Definition set_conn (st : state) (c : cid) (x : conn) : state :=
   match c with
-  | CA => {| s_n2r := s_n2r st; s_r2n := s_r2n st; s_copy := s_copy st; s_a := x; s_b := s_b st |}
-  | CB => {| s_n2r := s_n2r st; s_r2n := s_r2n st; s_copy := s_copy st; s_a := s_a st; s_b := x |}
+  | CA => {| s_n2r := s_n2r st; s_r2n := s_r2n st; s_copy := s_copy st; s_h := s_h st; s_a := x; s_b := s_b st |}
+  | CB => {| s_n2r := s_n2r st; s_r2n := s_r2n st; s_copy := s_copy st; s_h := s_h st; s_a := s_a st; s_b := x |}
   end.
 Definition set_names (st : state) (n2r : list (string * Z)) (r2n : list (Z * string)) : state :=
-  {| s_n2r := n2r; s_r2n := r2n; s_copy := s_copy st; s_a := s_a st; s_b := s_b st |}.
+  {| s_n2r := n2r; s_r2n := r2n; s_copy := s_copy st; s_h := s_h st; s_a := s_a st; s_b := s_b st |}.
 Definition set_copy (st : state) (cp : list (string * Z)) : state :=
-  {| s_n2r := s_n2r st; s_r2n := s_r2n st; s_copy := cp; s_a := s_a st; s_b := s_b st |}.
+  {| s_n2r := s_n2r st; s_r2n := s_r2n st; s_copy := cp; s_h := s_h st; s_a := s_a st; s_b := s_b st |}.
 
 Definition new_conn : conn := {| c_alive := true; c_exports := []; c_next := first_clid |}.
 (* classes registered by importing foolscap get the ids -1, -2, ... in the order of the translated key list *)
 Fixpoint number_from (k : Z) (l : list string) : list (string * Z) :=
   match l with [] => [] | n :: r => (n, k) :: number_from (k - 1) r end.
 Definition init : state :=
-  {| s_n2r := []; s_r2n := []; s_copy := number_from (-1) copyable_names; s_a := new_conn; s_b := new_conn |}.
+  {| s_n2r := []; s_r2n := []; s_copy := number_from (-1) copyable_names; s_h := []; s_a := new_conn; s_b := new_conn |}.
 
 (* ---------- inbound messages *)
 Inductive mname := MStr (s : string) | MBad.            (* the bytes of a STRING token: UTF-8 text | undecodable *)
@@ -103,17 +103,17 @@ Definition refuse (r : refusal) : outcome := match r with RejectR => Reject | Ab
 Definition lookup_name (w : world) (st : state) (n : string) : option Z :=
   match sget n (s_n2r st) with
   | Some o => Some o
-  | None => w_handler w n
+  | None => sget n (s_h st)
   end.
 
 (* ... which also records the name under which a handler-provided object was found *)
 Definition found_name (w : world) (st : state) (n : string) : option (Z * state) :=
   match sget n (s_n2r st) with
   | Some o => Some (o, st)
-  | None => match w_handler w n with
+  | None => match sget n (s_h st) with
             | Some o => Some (o, if is_some (zget o (s_r2n st)) then st
-                                 else {| s_n2r := s_n2r st; s_r2n := zset o n (s_r2n st); s_copy := s_copy st;
-                                         s_a := s_a st; s_b := s_b st |})
+                                 else set_names st (if handler_answers_cached then sset n o (s_n2r st) else s_n2r st)
+                                                (zset o n (s_r2n st)))
             | None => None
             end
   end.
@@ -251,6 +251,11 @@ Inductive event :=
 | Register (n : string) (o : Z) (sw : string)           (* tub.registerReference(o, name=n) *)
 | Unregister (o : Z)                                    (* tub.unregisterReference(o) *)
 | RegisterCopy (n : string) (cls : Z)                   (* registerRemoteCopy(n, cls) *)
+| RegisterCopyPriv (n : string) (cls : Z) (empty : bool) (* registerRemoteCopy*(n, cls, registry=<a private dict>); empty: that dict
+                                                           has no entry yet (an input: the private dict is application state) *)
+| Serve (n : string) (o : Z)                            (* the application's lookup handler starts answering n with o *)
+| Revoke (n : string)                                   (* ... stops answering n *)
+| HandlerOff                                            (* tub.unregisterNameLookupHandler: nothing is served any more *)
 | Grant (c : cid) (o : Z) (sw : string)                 (* the application sends o to the peer of c *)
 | Msg (c : cid) (req clid : Z) (m : mname) (args : list arg)   (* inbound (call req clid m (arguments ...)) *)
 | TopMsg (c : cid) (t : string)                         (* any other top-level sequence, e.g. an unsolicited answer *)
@@ -266,6 +271,16 @@ Definition step (w : world) (st : state) (e : event) : state * result :=
      end, res0 Local)
   | RegisterCopy n cls =>
     (if is_some (sget n (s_copy st)) then st else set_copy st (sset n cls (s_copy st)), res0 Local)
+  | RegisterCopyPriv n cls empty =>
+    (* the connection-level unslicer consults only the global registry: a private registration is invisible to peers,
+       unless the default-registry test of registerRemoteCopyUnslicerFactory mistakes an empty dict for "none given" *)
+    (match default_registry_test with
+     | DefaultIfNone => st
+     | DefaultIfFalsy => if empty then (if is_some (sget n (s_copy st)) then st else set_copy st (sset n cls (s_copy st))) else st
+     end, res0 Local)
+  | Serve n o => ({| s_n2r := s_n2r st; s_r2n := s_r2n st; s_copy := s_copy st; s_h := sset n o (s_h st); s_a := s_a st; s_b := s_b st |}, res0 Local)
+  | Revoke n => ({| s_n2r := s_n2r st; s_r2n := s_r2n st; s_copy := s_copy st; s_h := sdel n (s_h st); s_a := s_a st; s_b := s_b st |}, res0 Local)
+  | HandlerOff => ({| s_n2r := s_n2r st; s_r2n := s_r2n st; s_copy := s_copy st; s_h := []; s_a := s_a st; s_b := s_b st |}, res0 Local)
   | Grant c o sw => let '(st', sent) := grant w st c o sw in (st', {| r_inst := []; r_out := Local; r_sent := sent |})
   | Drop c => (set_conn st c (drop_conn (get_conn st c)), res0 Local)
   | TopMsg c t => (st, res0 (if c_alive (get_conn st c) then Reject else Dead))
@@ -318,8 +333,8 @@ Definition is_lookup (e : event) : bool :=
 (* what connection c and the copyable registry can see: c's own events and RegisterCopy *)
 Definition relevant (c : cid) (e : event) : bool :=
   match e with
-  | RegisterCopy _ _ => true
-  | Register _ _ _ | Unregister _ => false
+  | RegisterCopy _ _ | RegisterCopyPriv _ _ _ => true
+  | Register _ _ _ | Unregister _ | Serve _ _ | Revoke _ | HandlerOff => false
   | _ => match on_conn e with Some c' => cid_eqb c c' | None => false end
   end.
 Definition proj (c : cid) (h : list event) : list event := filter (relevant c) h.
